@@ -59,7 +59,25 @@ def main(tier, replay):
         "num_TOF_bins_in_memory; num_events_to_store; output read back from Interfile or ProjDataInMemory.  One `run` line = one process_data "
         "call; answer = final current_time, clamped batch size and all non-zero bins of every frame, compared EXACTLY with the Lean model "
         "(integers).  Oracle = independent count over the event list per frame (property statement), batch-size independence, frames of a "
-        "partition add up, num_events cut-off, get_bin glue.  distinct = distinct op lines.",
+        "partition add up, num_events cut-off, get_bin glue.  "
+        "LIST-MODE OBJECTIVE (last clause): the real PoissonLogLikelihoodWithLinearModelForMeanAndListModeDataWithProjMatrixByBin driven in memory "
+        "(set_input_data with the synthetic ListModeData, set_proj_matrix(ProjMatrixByBinUsingRayTracing, random symmetry switches), set_additive_proj_data_sptr "
+        "(TOF-dependent values) on/off, BinNormalisationFromProjData / trivial, set_max_segment_num_to_process, 1..num_views subsets, frame_defs + 'time frame number' and "
+        "'num_events_to_use' through the object's keymap, no cache files / cache files with 1,2,3,5,7,n/2,n,n+1,1000 events per batch) on generated geometries "
+        "(8/12/16 detectors, 1-3 rings, span 1/3, view mashing, trimmed tangential range, non-TOF and 3/5/7 TOF bins, 5x5 / 7x7 voxel images), streams of the generator above "
+        "with monotone time marks.  For every subset: compute_sub_gradient_without_penalty, ..._plus_sensitivity, get_subset_sensitivity, "
+        "accumulate_sub_Hessian_times_input_without_penalty, compute_objective_function_without_penalty at two images, and compute_gradient_without_penalty.  ORACLE (harness): "
+        "(i) the same events histogrammed by the real LmToProjData (prompts only, same frame / same num_events, same processed segments; histogram == independent count) are given to "
+        "the real PoissonLogLikelihoodWithLinearModelForMeanAndProjData with the same matrix type, additive term and normalisation; gradient plus sensitivity, subset "
+        "sensitivity and Hessian product are compared per subset and voxel (both classes put a bin into the subset of the view of its basic bin under the symmetries of the "
+        "matrix), the gradient including the sensitivity term per subset and in total for non-TOF data (for TOF data the projection-data class back projects the sensitivity "
+        "term TOF bin by TOF bin while the list-mode class uses the non-TOF back projection: only equal if the TOF bins cover the kernel); tolerance 2*4*n*2^-24*sum|terms|, "
+        "n = longest row + contributions to the voxel + 10; (ii) textbook expressions in double on explicit rows from the event list; (iii) another cache size gives the same "
+        "result; (iv) histories: configure, set_up, compute, change stream / frame number / frame definitions / cache size / additive term / number of subsets back to the "
+        "reference configuration, set_up: bitwise equal to a fresh object; (v) value differences between two images against sum of logs - sensitivity.image.  "
+        "CORRESPONDENCE: one `lmgps` line per subset = gradient plus sensitivity of the real class against the Lean model (lmEvents/lmContribs: event selection by frame and "
+        "ranges, batches, subset test, back projection of 1/(row.image+additive)) evaluated exactly in Rat on the rows, additive values and basic views of the real matrix, "
+        "bound 4*n*2^-24*sum|terms|.  Runs in which a known class of defect (stable key) is detected are reported and not compared with the model.  distinct = distinct op lines.",
         extra)
     chk.assumptions += [
         "event -> bin map (get_bin_for_det_pos_pair) is data for this property (C01)",
@@ -67,6 +85,10 @@ def main(tier, replay):
         "records are either a time mark or an event (combined records as in CListRecordROOT are not exercised)",
         "normalisation is the default TrivialBinNormalisation; counts < 2^24 (float exact)",
         "num_segments_in_memory / num_TOF_bins_in_memory >= 1 or -1 (0 and other negative values make process_data loop forever: not run)",
+        "list-mode objective: matrix rows, additive values and the view of the basic bin are data taken from the real ProjMatrixByBinUsingRayTracing / ProjData (C03/C04/C02); "
+        "images strictly positive (the max_quotient thresholds of the projection-data class are C05's subject); floating point rounding is not modelled (forward error bound); "
+        "the sensitivity, the Hessian product and the value are compared on the implementation only (no Lean model); builds with OpenMP / MPI are not run; "
+        "cache files are written to and read from a scratch directory (recompute_cache = true; re-use of old cache files is not exercised)",
     ]
     if audit:
         vlib.proof_coverage(chk, audit, "cd lean && lake build StirVerif.C14.Props Driver.C14 && lake env lean ../build/out/Audit_C14.lean")
